@@ -1,10 +1,11 @@
 import UF.Spec.Result
 import UF.Proofs.Badfilter
+import UF.Proofs.DnsRewrite
 /-
   C08 — `$badfilter` disables exactly its twin rules, however many are present.
   Property theorems only (helper lemmas live in UF/Proofs/Badfilter.lean).
-  The verdict-level corollaries (`c08_verdict_*`) are at the end of UF/Props/C06.lean's sibling
-  section below and use the model of NewMatchingResult / GetDNSBasicRule.
+  The verdict-level corollaries (`c08_rewrites_*`, `c08_verdict_*`) use the models of DNSRewrites,
+  NewMatchingResult and GetDNSBasicRule, all of which start with `removeBadfilterRules`.
 -/
 namespace UF.C08
 open UF
@@ -124,6 +125,37 @@ theorem c08_twins (L' : List NetRule) (E : NetRule → Bool)
   rcases H1 e he hE with h | ⟨b, hb, hn⟩
   · exact Or.inl h
   · exact Or.inr ⟨b, hb, negatesBadfilter_badfilter b e hn, hn⟩
+
+/-! #### effective DNS rewrites (D14: `DNSRewrites` applies `$badfilter` first) -/
+
+/-- A badfilter rule can only negate rules with the same `$dnsrewrite`, so filtering the rewrite
+    subset (what `DNSRewrites` does) equals filtering the whole list and keeping the rewrites. -/
+theorem c08_rewrites_comm (all : List NetRule) :
+    removeBadfilterRules (dnsRewritesAll all) = (removeBadfilterRules all).filter (·.rewrite.isSome) := by
+  rw [dnsRewritesAll_eq, removeBadfilterRules_eq_spec, removeBadfilterRules_eq_spec, specRemoveBad_rewrites_comm]
+
+/-- The effective rewrites are computed from the badfilter-filtered list only. -/
+theorem c08_rewrites_filtered (res : List NetRule) :
+    dnsRewrites res = some (specRewritesCore ((removeBadfilterRules res).filter (·.rewrite.isSome))) := by
+  rw [dnsRewrites_eq_spec, specRewrites, ← removeBadfilterRules_eq_spec, c08_rewrites_comm]
+
+/-- No badfilter rule is ever returned as an effective rewrite. -/
+theorem c08_rewrites_no_badfilter (res out : List NetRule) (h : dnsRewrites res = some out) (r : NetRule)
+    (hr : r ∈ out) : r.badfilter = false := by
+  rw [c08_rewrites_filtered] at h
+  rw [← Option.some.inj h, specRewritesCore] at hr
+  have := (List.mem_filter.mp (List.mem_filter.mp hr).1).1
+  exact c08_no_badfilter res r this
+
+/-- `DNSRewrites(L + {x, x$badfilter}) = DNSRewrites(L)` for a twin pair at arbitrary positions, in
+    either order (`x` any rule, with or without `$dnsrewrite`, distinct from every rule of `L`). -/
+theorem c08_rewrites_twin (l1 l2 l3 : List NetRule) (x xb : NetRule) (hx : x.badfilter = false)
+    (hxb : xb.matchFields = x.withBadfilter.matchFields)
+    (hdist : ∀ r ∈ l1 ++ l2 ++ l3, r.matchFields ≠ x.matchFields) :
+    dnsRewrites (l1 ++ x :: l2 ++ xb :: l3) = dnsRewrites (l1 ++ l2 ++ l3) ∧
+    dnsRewrites (l1 ++ xb :: l2 ++ x :: l3) = dnsRewrites (l1 ++ l2 ++ l3) := by
+  have := c08_twin l1 l2 l3 x xb hx hxb hdist
+  simp only [c08_rewrites_filtered, this.1, this.2, and_self]
 
 /-! #### non-vacuity and the old shape (D7) -/
 
